@@ -18,38 +18,77 @@ variable {F : Type} [Field F] [DecidableEq F]
 theorem C11_consts_tie :
     Pff.Consts.codecs = [(1, 3, 283, 1), (2, 3, 283, 1), (3, 3, 283, 1), (4, 2, 391, 120)] ∧
     Pff.Consts.fields = [(283, 3), (391, 2)] := by
-  sorry
+  exact ⟨rfl, rfl⟩
 
 /-- The tables of the two fields are the orbit of the generator under carry-less multiplication
 modulo the primitive polynomial (ties the literals in `Consts.lean` to `prim` and `generator`). -/
 theorem C11_tables_tie :
     (∀ i, i < 254 → gexp pA (i + 1) = clmulmod pA.prim 8 (gexp pA i) pA.gen) ∧ gexp pA 0 = 1 ∧
     (∀ i, i < 254 → gexp pB (i + 1) = clmulmod pB.prim 8 (gexp pB i) pB.gen) ∧ gexp pB 0 = 1 := by
-  sorry
+  exact ⟨Pff.GFProofs.tie_spec Pff.GFProofs.chkTie_A, Pff.GFProofs.gexp_zero_A,
+    Pff.GFProofs.tie_spec Pff.GFProofs.chkTie_B, Pff.GFProofs.gexp_zero_B⟩
 
 /-- The byte type with the table multiplication of field A (0x11b, generator 3) is a field, with
 exactly the model's `+` and `*`. -/
-noncomputable instance instFieldA : Field (Elt pA) := by
-  sorry
+instance instFieldA : Field (Elt pA) := Pff.RSProofs.fieldA
 
-noncomputable instance instFieldB : Field (Elt pB) := by
-  sorry
+instance instFieldB : Field (Elt pB) := Pff.RSProofs.fieldB
+
+/-- `+ * 0 1 - / ⁻¹` of the two field instances are the model's own operations (by `rfl`). -/
+theorem C11_fieldA_ops (a b : Elt pA) :
+    instFieldA.toDistrib.toAdd.add a b = Pff.GF.Elt.instAdd.add a b ∧
+    instFieldA.toDistrib.toMul.mul a b = Pff.GF.Elt.instMul.mul a b ∧
+    instFieldA.toCommRing.toCommMonoid.toMonoid.toOne.one = (Pff.GF.Elt.instOne (p := pA)).one ∧
+    instFieldA.toCommRing.toRing.toAddCommGroup.toAddGroup.toSubNegMonoid.toAddMonoid.toZero.zero
+      = (Pff.GF.Elt.instZero (p := pA)).zero ∧
+    instFieldA.toCommRing.toRing.toNeg.neg a = Pff.GF.Elt.instNeg.neg a ∧
+    instFieldA.toCommRing.toRing.toSub.sub a b = Pff.GF.Elt.instSub.sub a b ∧
+    instFieldA.toInv.inv a = Pff.GF.Elt.instInv.inv a ∧
+    instFieldA.toDiv.div a b = Pff.GF.Elt.instDiv.div a b :=
+  ⟨rfl, rfl, rfl, rfl, rfl, rfl, rfl, rfl⟩
+
+theorem C11_fieldB_ops (a b : Elt pB) :
+    instFieldB.toDistrib.toAdd.add a b = Pff.GF.Elt.instAdd.add a b ∧
+    instFieldB.toDistrib.toMul.mul a b = Pff.GF.Elt.instMul.mul a b ∧
+    instFieldB.toCommRing.toCommMonoid.toMonoid.toOne.one = (Pff.GF.Elt.instOne (p := pB)).one ∧
+    instFieldB.toCommRing.toRing.toAddCommGroup.toAddGroup.toSubNegMonoid.toAddMonoid.toZero.zero
+      = (Pff.GF.Elt.instZero (p := pB)).zero ∧
+    instFieldB.toCommRing.toRing.toNeg.neg a = Pff.GF.Elt.instNeg.neg a ∧
+    instFieldB.toCommRing.toRing.toSub.sub a b = Pff.GF.Elt.instSub.sub a b ∧
+    instFieldB.toInv.inv a = Pff.GF.Elt.instInv.inv a ∧
+    instFieldB.toDiv.div a b = Pff.GF.Elt.instDiv.div a b :=
+  ⟨rfl, rfl, rfl, rfl, rfl, rfl, rfl, rfl⟩
+
+/-- the `Zero One Add Mul` instances the generic model functions receive when they are elaborated
+over a type carrying a `Field` instance (as in every general theorem below) -/
+def opsOfField (F : Type) [Field F] : Zero F × One F × Add F × Mul F :=
+  (inferInstance, inferInstance, inferInstance, inferInstance)
+
+/-- … at the two concrete fields they are the model's own instances (by `rfl`). -/
+theorem C11_field_model_ops :
+    @opsOfField (Elt pA) instFieldA =
+      (Pff.GF.Elt.instZero, Pff.GF.Elt.instOne, Pff.GF.Elt.instAdd, Pff.GF.Elt.instMul) ∧
+    @opsOfField (Elt pB) instFieldB =
+      (Pff.GF.Elt.instZero, Pff.GF.Elt.instOne, Pff.GF.Elt.instAdd, Pff.GF.Elt.instMul) :=
+  ⟨rfl, rfl⟩
 
 /-- codecs 1–3 are good codecs for every `n ≤ 255` -/
 theorem C11_codecA_good (algo n k : Nat) (ha : algo = 1 ∨ algo = 2 ∨ algo = 3) (hn : n ≤ 255) :
     GoodCodec (codecA algo n k) := by
-  sorry
+  exact Pff.RSProofs.goodCodec_of pA Pff.GFProofs.factsA (codecA algo n k) rfl
+    (by rcases ha with h | h | h <;> simp [codecA, h]) hn
 
 /-- codec 4 is a good codec for every `n ≤ 255` -/
 theorem C11_codecB_good (n k : Nat) (hn : n ≤ 255) : GoodCodec (codecB n k) := by
-  sorry
+  exact Pff.RSProofs.goodCodec_of pB Pff.GFProofs.factsB (codecB n k) rfl (by simp [codecB]) hn
 
 /-- Intact data is never flagged: the check is true for every message paired with the parity
 produced for it (any message length ≤ k, any per-call k). -/
 theorem C11_accepts (c : Codec F) (hc : GoodCodec c) (msg : List F) (k : Nat)
     (hm : msg.length ≤ effK c k) (hk : effK c k ≤ c.n) :
     check c msg (encode c msg k) k = true := by
-  sorry
+  have _ := hm; have _ := hk   -- (not needed: the check accepts whatever the lengths)
+  exact Pff.RSProofs.check_encode c hc msg k
 
 /-- Any corruption of between 1 and n−k symbols of message+parity (wherever they lie; the zero
 padding of a short message is not part of the word) is detected. -/
@@ -59,13 +98,13 @@ theorem C11_detects (c : Codec F) (hc : GoodCodec c) (msg : List F) (k : Nat)
     (h1 : 1 ≤ hdist (msg' ++ ecc') (msg ++ encode c msg k))
     (h2 : hdist (msg' ++ ecc') (msg ++ encode c msg k) ≤ c.n - effK c k) :
     check c msg' ecc' k = false := by
-  sorry
+  exact Pff.RSProofs.detects c hc msg k hm hk msg' ecc' hl he h1 h2
 
 /-- Truncated parity: a parity cut by `j` symbols is accepted iff the cut symbols were all zero. -/
 theorem C11_truncated_parity (c : Codec F) (hc : GoodCodec c) (msg : List F) (k : Nat)
     (hm : msg.length ≤ effK c k) (hk : effK c k ≤ c.n) (j : Nat) (hj : j ≤ c.n - effK c k) :
     check c msg ((encode c msg k).take (c.n - effK c k - j)) k = true ↔
       ∀ x ∈ (encode c msg k).drop (c.n - effK c k - j), x = 0 := by
-  sorry
+  exact Pff.RSProofs.truncated_parity c hc msg k hm hk j hj
 
 end Pff.RSSpec
